@@ -138,7 +138,8 @@ fn lib_dis(d: &Dict, default: Option<&str>) -> String {
     dict_to_dis(d, &loc, default.map(Cow::Borrowed)).to_string()
 }
 
-const PIECES: [&str; 30] = [
+const PIECES: [&str; 34] = [
+    "$pwr", "${pwr}", "$tempSp", "pwr",
     "$", "{", "}", "<", ">", "a", "b", "ab", "aB_9", "siteRef", "k", "kx", "pod::key", " ", "é", "$a", "${a}", "${ab}", "$<k>", "$<x>", "$ab", "$siteRef", "$$", "${", "$<", "x", "A", "_", "9", "😀",
 ];
 
@@ -210,6 +211,7 @@ pub fn run(ctx: &mut Ctx) {
             }
             d.insert("a".into(), Value::make_str("AA"));
             d.insert("ab".into(), Value::make_number(7.0));
+            d.insert("pwr".into(), Value::make_number_unit(72.5, crate::bridge::unit_by_name("kilowatt").unwrap()));
             d.insert("siteRef".into(), Value::make_ref_with_dis("s1", "Site One"));
             let default = if variant % 2 == 0 { Some("DEFAULT") } else { None };
             ctx.eval("precedence", crate::prng::mix(&[subset as u64, variant as u64]), true);
@@ -261,6 +263,8 @@ pub fn run(ctx: &mut Ctx) {
         ("aB_9", Value::make_bool(true)),
         ("siteRef", Value::make_ref_with_dis("s1", "Site One")),
         ("k", Value::Marker),
+        ("pwr", Value::make_number_unit(72.5, crate::bridge::unit_by_name("kilowatt").unwrap())),
+        ("tempSp", Value::make_number_unit(-40.0, crate::bridge::unit_by_name("fahrenheit").unwrap())),
         ("x", Value::make_str("$a")), // substituted text is not re-scanned
     ];
     let n = ctx.n(20_000, 1_000_000);
